@@ -328,6 +328,10 @@ func (c *OpenID4VPClient) RequestRFC021AccessToken(ctx context.Context, clientID
 		}
 	}
 
+	// the token endpoint comes out of the remote metadata, just like the presentation definition endpoint above
+	if _, err = core.ParsePublicURL(metadata.TokenEndpoint, c.strictMode); err != nil {
+		return nil, fmt.Errorf("invalid token endpoint: %w", err)
+	}
 	log.Logger().Tracef("Requesting access token from '%s' for scope '%s'\n  VP: %s\n  Submission: %s", metadata.TokenEndpoint, scopes, assertion, string(presentationSubmission))
 	token, err := iamClient.AccessToken(ctx, metadata.TokenEndpoint, data, dpopHeader)
 	if err != nil {
@@ -357,6 +361,10 @@ func (c *OpenID4VPClient) OpenIdCredentialIssuerMetadata(ctx context.Context, oa
 
 func (c *OpenID4VPClient) VerifiableCredentials(ctx context.Context, credentialEndpoint string, accessToken string, proofJWT string) (*CredentialResponse, error) {
 	iamClient := c.httpClient
+	// the credential endpoint comes out of the remote issuer metadata
+	if _, err := core.ParsePublicURL(credentialEndpoint, c.strictMode); err != nil {
+		return nil, fmt.Errorf("invalid credential endpoint: %w", err)
+	}
 	rsp, err := iamClient.VerifiableCredentials(ctx, credentialEndpoint, accessToken, proofJWT)
 	if err != nil {
 		return nil, fmt.Errorf("remote server: failed to retrieve credentials: %w", err)
